@@ -27,29 +27,41 @@ CompDiff(s1, h1, l1, s2, h2, l2) ==
   ELSE IF h1 + h2 > 1 THEN 1000000000 ELSE (h1 + h2) * 16777216 + l1 + l2      \* opposite signs: both must be tiny
 CoarseDiff(s1, h1, s2, h2) == IF s1 = s2 \/ h1 = 0 \/ h2 = 0 THEN AbsV((IF s1 = 0 THEN 0 ELSE h1) - (IF s2 = 0 THEN 0 ELSE h2)) ELSE h1 + h2
 Shift(c) == <<c[1] + 1, c[2], HalfHi(c[3], c[4]), HalfLo(c[3], c[4]), c[5], HalfHi(c[6], c[7]), HalfLo(c[6], c[7])>>
-\* distance class of two codes: 0 close, 1 inconclusive, 2 far.  Thresholds by real width:
-\* double: close <= Klo units of 2^-53 of the larger component (2^15 eps), far > 2^-20 relative
-\* float : close <= 2^-18 relative (64 ulps of the larger component), far > 2^-14 relative
-Klo == 65536
-KhiCoarse == 512                      \* 2^9 units of hi (one hi unit = 2^-29 relative) = 2^-20
-KloF == 2048                          \* hi units: 2^-18
-KhiF == 32768                         \* hi units: 2^-14
-DistClass(a, b, wd) ==
+\* distance class of two codes: 0 close, 1 inconclusive, 2 far.  One unit = 2^-53 of the larger component (half an eps).
+\* Calibration: on the whole argument grid the library's fallbacks differ from the C library by at most 6 eps (12 units).
+\* double: close <= 64 units (32 eps); far > 1024 units (512 eps) - "a small multiple of machine precision" is exceeded
+\* float : one float ulp is 32 hi units (a hi unit is 2^-29); close <= 512 hi units (16 ulps), far > 8192 hi units (256 ulps)
+Klo == 64
+Khi == 1024
+KloF == 512
+KhiF == 8192
+\* the coarse classification (used where the relation itself is ill conditioned): close <= 2^16 units, far > 2^-20 resp. 2^-14
+KloC == 65536
+KhiCoarse == 512
+KloFC == 2048
+KhiFC == 32768
+Aligned(a, b) ==
+  LET x == IF a[1] < b[1] THEN (IF b[1] - a[1] = 1 THEN Shift(a) ELSE a) ELSE a
+      y == IF b[1] < a[1] THEN (IF a[1] - b[1] = 1 THEN Shift(b) ELSE b) ELSE b IN <<x, y>>
+DistClassG(a, b, wd, klo, khi, klof, khif, fine) ==
   IF ~Finite(a) \/ ~Finite(b) THEN (IF a = b THEN 0 ELSE 2)
   ELSE IF IsZero(a) /\ IsZero(b) THEN 0
   ELSE IF IsZero(a) \/ IsZero(b) THEN 2
-  ELSE LET x == IF a[1] < b[1] THEN (IF b[1] - a[1] = 1 THEN Shift(a) ELSE a) ELSE a
-           y == IF b[1] < a[1] THEN (IF a[1] - b[1] = 1 THEN Shift(b) ELSE b) ELSE b IN
+  ELSE LET xy == Aligned(a, b)  x == xy[1]  y == xy[2] IN
        IF x[1] # y[1] THEN 2
        ELSE LET c1 == CoarseDiff(x[2], x[3], y[2], y[3])
                 c2 == CoarseDiff(x[5], x[6], y[5], y[6]) IN
-            IF wd = 4 THEN (IF c1 <= KloF /\ c2 <= KloF THEN 0 ELSE IF c1 <= KhiF /\ c2 <= KhiF THEN 1 ELSE 2)
+            IF wd = 4 THEN (IF c1 <= klof /\ c2 <= klof THEN 0 ELSE IF c1 <= khif /\ c2 <= khif THEN 1 ELSE 2)
             ELSE LET d1 == CompDiff(x[2], x[3], x[4], y[2], y[3], y[4])
                      d2 == CompDiff(x[5], x[6], x[7], y[5], y[6], y[7]) IN
-                 IF d1 <= Klo /\ d2 <= Klo THEN 0
-                 ELSE IF c1 <= KhiCoarse /\ c2 <= KhiCoarse THEN 1 ELSE 2
+                 IF d1 <= klo /\ d2 <= klo THEN 0
+                 ELSE IF fine THEN (IF d1 <= khi /\ d2 <= khi THEN 1 ELSE 2)
+                 ELSE (IF c1 <= khi /\ c2 <= khi THEN 1 ELSE 2)
+DistClass(a, b, wd) == DistClassG(a, b, wd, Klo, Khi, KloF, KhiF, TRUE)
+DistCoarse(a, b, wd) == DistClassG(a, b, wd, KloC, KhiCoarse, KloFC, KhiFC, FALSE)
 Close(a, b, wd) == DistClass(a, b, wd) = 0
 NotFar(a, b, wd) == DistClass(a, b, wd) # 2
+NotFarCoarse(a, b, wd) == DistCoarse(a, b, wd) # 2
 ConjC(c) == <<c[1], c[2], c[3], c[4], -c[5], c[6], c[7]>>
 NegC(c) == <<c[1], -c[2], c[3], c[4], -c[5], c[6], c[7]>>
 SignRe(c) == c[2]
